@@ -118,10 +118,28 @@ where
 {
     if matches!(op, "batch_multiply" | "par_batch_multiply") {
         let fs: Vec<Vec<F>> = a.first()?.list()?.iter().map(F::plist).collect::<Option<_>>()?;
-        st.hit(&format!("batch:len={}", fs.len()));
-        return Some(with_variants(&fs, st, &|ps| {
+        st.hit(&format!("batch:len={}", if fs.len() > 9 { ">9".to_string() } else { fs.len().to_string() }));
+        if fs.len() >= 2 && fs.iter().all(|p| p.len() == 2) {
+            st.hit("batch:every-factor-has-two-stored-coefficients");
+        }
+        if fs.iter().any(|p| p.len() >= 2 && Polynomial::new(p.clone()).degree() <= 0) {
+            st.hit("batch:padded-constant-element");
+        }
+        let o = with_variants(&fs, st, &|ps| {
             okp(&if op == "batch_multiply" { Polynomial::batch_multiply(ps) } else { Polynomial::par_batch_multiply(ps) })
-        }));
+        });
+        // on the implementation: the sequential and the parallel batch product agree with the left-to-right product
+        // by the operator `*`, and the degree is the sum of the degrees (no factor dropped, none added)
+        let ps: Vec<Pl<F>> = fs.iter().map(|p| build(p, 0, false)).collect();
+        let mut acc: Pl<F> = Polynomial::one();
+        for p in &ps {
+            acc = acc * p.clone();
+        }
+        let agree = std::panic::catch_unwind(AssertUnwindSafe(|| {
+            Polynomial::batch_multiply(&ps) == acc && Polynomial::par_batch_multiply(&ps) == acc
+        }))
+        .unwrap_or(true);
+        return Some(o.with_oracle(agree, "batch_multiply / par_batch_multiply != the left-to-right product of the factors"));
     }
     let p0 = F::plist(a.first()?)?;
     let stored = p0.len() as i64 - (Polynomial::new(p0.clone()).degree() as i64 + 1);
@@ -219,7 +237,16 @@ where
         }
         "truncate" => {
             let k = a.get(1)?.usize()?;
-            one(&|p| okp(&p.truncate(k)), st)
+            let o = one(&|p| okp(&p.truncate(k)), st)?;
+            // documented contract, on the implementation: the min(k, deg) + 1 highest coefficients of `coefficients()`
+            let p = build(&p0, 0, false);
+            let c = p.coefficients();
+            let keep = (k as u128 + 1).min(c.len() as u128) as usize;
+            st.hit(if k == usize::MAX { "truncate:k=usize::MAX" } else if k as u128 + 1 >= c.len() as u128 { "truncate:k>=deg" } else { "truncate:k<deg" });
+            let want = &c[c.len() - keep..];
+            let got = std::panic::catch_unwind(AssertUnwindSafe(|| p.truncate(k).coefficients().to_vec()));
+            let ok = got.map(|g| g.as_slice() == normalized_tail(want)).unwrap_or(false);
+            Some(o.with_oracle(ok, "truncate(k) is not the min(k,deg)+1 highest coefficients"))
         }
         "mod_x_to_the_n" => {
             let n = a.get(1)?.usize()?;
@@ -319,6 +346,9 @@ pub fn run_polyv(op: &str, args: &[Arg], st: &mut Stats) -> Option<Out> {
     let f = args.first()?.sym()?.to_string();
     let a = &args[1..];
     st.hit(&format!("field:{f}"));
+    if let Some(o) = run_ext(op, f.as_str(), a, st) {
+        return Some(o);
+    }
     match (op, f.as_str()) {
         ("clean_divide", "b") => {
             // BFieldElement only; the dividend is given as quotient and divisor so that the division is clean
@@ -497,6 +527,8 @@ pub fn gen(rng: &mut Rng, thorough: bool, out: &mut Vec<String>) {
             }
         }
     }
+    gen_ext(rng, thorough, out);
+    gen_batch_elements(rng, thorough, out);
     // clean division (base field only): long-division arm, and the NTT arm (divisor degree >= 512 in production)
     for (dq, dd) in [(3i64, 5i64), (0, 7), (-1, 4), (10, 0)] {
         let q = pstr(rng, false, dq, 0);
@@ -510,5 +542,358 @@ pub fn gen(rng: &mut Rng, thorough: bool, out: &mut Vec<String>) {
         let q = pstr(rng, false, dq, 0);
         let d = pstr(rng, false, dd, 0);
         out.push(format!("polyv clean_divide b {q} {d}"));
+    }
+}
+
+// ============================================================================================================
+// G07 extension: public API of `Polynomial` that had no op before -- constructors (`x_to_the`, `from_constant`,
+// `Zero::zero`, `One::one`, the four `From` impls), the scalar `Mul` operators (`p * s`, `s * p` for both scalar
+// types), mixed-field `evaluate::<Ind, Eval>`, and the modulus argument of the (doc-hidden, pub) modular coset
+// interpolation.  Every polynomial argument is run on the storage variants of `KINDS`; constructors are run on
+// padded coefficient lists.  Oracles use field arithmetic only.
+// ============================================================================================================
+fn normalized_tail<F: Fld>(c: &[F]) -> &[F] {
+    let mut n = c.len();
+    while n > 0 && c[n - 1].is_zero() {
+        n -= 1;
+    }
+    &c[..n]
+}
+fn horner_mixed<C: Copy, X: Copy + std::ops::Mul<X, Output = X> + std::ops::Add<C, Output = X> + Zero>(cs: &[C], x: X) -> X {
+    let mut acc = X::zero();
+    for &c in cs.iter().rev() {
+        acc = acc * x + c;
+    }
+    acc
+}
+const PADS: [usize; 4] = [0, 1, 2, 17];
+
+fn ctor_ops<F: Fld>(op: &str, a: &[Arg], st: &mut Stats) -> Option<Out>
+where
+    F: std::ops::Mul<F, Output = F>,
+{
+    match op {
+        "x_to_the" => {
+            let n = a.first()?.usize()?;
+            st.hit(&format!("ctor:x_to_the n={}", if n > 2 { ">2".into() } else { n.to_string() }));
+            let p = Polynomial::<F>::x_to_the(n);
+            let c = p.coefficients();
+            let ok = c.len() == n + 1
+                && c[..n].iter().all(|x| x.is_zero())
+                && c[n].is_one()
+                && p.degree() == n as isize
+                && p.is_x() == (n == 1)
+                && p.is_one() == (n == 0)
+                && p == Polynomial::<F>::one().shift_coefficients(n);
+            Some(Out::ok(okp(&p)).with_oracle(ok, "x_to_the(n) != X^n"))
+        }
+        "from_constant" => {
+            let c = F::p1(a.first()?)?;
+            st.hit(if c.is_zero() { "ctor:from_constant zero" } else { "ctor:from_constant nonzero" });
+            let p = Polynomial::from_constant(c);
+            let ok = p.degree() == if c.is_zero() { -1 } else { 0 }
+                && p.coefficients() == normalized_tail(&[c])
+                && p.leading_coefficient() == if c.is_zero() { None } else { Some(c) }
+                && p.evaluate_in_same_field(c + F::ONE) == c
+                && p.is_zero() == c.is_zero()
+                && p.is_one() == c.is_one();
+            Some(Out::ok(okp(&p)).with_oracle(ok, "from_constant(c) != the constant polynomial c"))
+        }
+        "zero" | "one" => {
+            st.hit(&format!("ctor:{op}"));
+            let p: Pl<F> = if op == "zero" { Polynomial::zero() } else { Polynomial::one() };
+            let ok = if op == "zero" {
+                p.is_zero() && !p.is_one() && p.degree() == -1 && p.coefficients().is_empty() && p == Polynomial::new(vec![F::ZERO; 3])
+                    && hash_of(&p) == hash_of(&Polynomial::new(vec![F::ZERO; 3]))
+            } else {
+                p.is_one() && !p.is_zero() && p.degree() == 0 && p.coefficients() == [F::ONE] && p == Polynomial::new(vec![F::ONE, F::ZERO])
+                    && hash_of(&p) == hash_of(&Polynomial::new(vec![F::ONE, F::ZERO]))
+            };
+            Some(Out::ok(okp(&p)).with_oracle(ok, "Zero::zero / One::one are not the polynomials 0 / 1"))
+        }
+        "from_vec" | "from_slice" | "from_array" => {
+            let v = F::plist(a.first()?)?;
+            st.hit(&format!("ctor:{op} len={}", v.len().min(5)));
+            let mk = |w: &[F]| -> Option<Pl<F>> {
+                Some(match op {
+                    "from_vec" => Polynomial::from(w.to_vec()),
+                    "from_slice" => {
+                        let leaked: &'static [F] = Box::leak(w.to_vec().into_boxed_slice());
+                        Polynomial::from(leaked)
+                    }
+                    _ => match w.len() {
+                        0 => Polynomial::from([F::ZERO; 0]),
+                        1 => Polynomial::from([w[0]]),
+                        2 => Polynomial::from([w[0], w[1]]),
+                        3 => Polynomial::from([w[0], w[1], w[2]]),
+                        4 => Polynomial::from([w[0], w[1], w[2], w[3]]),
+                        5 => Polynomial::from([w[0], w[1], w[2], w[3], w[4]]),
+                        _ => return None,
+                    },
+                })
+            };
+            let base = mk(&v)?;
+            let r0 = okp(&base);
+            let mut bad = None;
+            for z in PADS {
+                let mut w = v.clone();
+                w.extend(std::iter::repeat(F::ZERO).take(z));
+                let Some(q) = mk(&w) else { continue };
+                let same = okp(&q) == r0 && q == base && hash_of(&q) == hash_of(&base) && q == Polynomial::new(w.clone()) && q.encode() == base.encode();
+                if !same && bad.is_none() {
+                    bad = Some(format!("{op} of the list padded with {z} zeros differs"));
+                }
+                st.hit(&format!("variant:ctor-pad{z}"));
+            }
+            let spec = base.coefficients() == normalized_tail(&v);
+            Some(Out::ok(r0).with_oracle(bad.is_none(), bad.unwrap_or_default()).with_oracle(spec, "From<..>: coefficients() is not the list without its trailing zeros"))
+        }
+        _ => None,
+    }
+}
+
+fn scalar_ops<F: Fld, S: Copy + 'static>(op: &str, p0: &[F], s: S, st: &mut Stats, smul: &dyn Fn(F, S) -> F, times: &dyn Fn(&Pl<F>, S) -> [Pl<F>; 3]) -> Option<Out> {
+    // `times` returns [p * s, s * p, p.scalar_mul(s)]
+    let o = with_variants(&[p0.to_vec()], st, &|ps| {
+        let [a, b, c] = times(&ps[0], s);
+        if a == b && b == c && okp(&a) == okp(&b) && okp(&b) == okp(&c) {
+            okp(&match op {
+                "mul_scalar" => a,
+                _ => b,
+            })
+        } else {
+            "p * s, s * p and scalar_mul(s) differ".into()
+        }
+    });
+    // coefficient-wise, on the implementation
+    let want: Vec<F> = p0.iter().map(|&c| smul(c, s)).collect();
+    let [a, _, _] = times(&build(p0, 0, false), s);
+    let ok = a.coefficients() == normalized_tail(&want);
+    Some(o.with_oracle(ok, "scalar operator is not the coefficient-wise product"))
+}
+
+fn run_ext(op: &str, f: &str, a: &[Arg], st: &mut Stats) -> Option<Out> {
+    type B = BFieldElement;
+    type X = XFieldElement;
+    match (op, f) {
+        ("x_to_the" | "from_constant" | "zero" | "one" | "from_vec" | "from_slice" | "from_array", "b") => ctor_ops::<B>(op, a, st),
+        ("x_to_the" | "from_constant" | "zero" | "one" | "from_vec" | "from_slice" | "from_array", "x") => ctor_ops::<X>(op, a, st),
+        ("from_xfe", "b") => {
+            // From<XFieldElement> for Polynomial<BFieldElement>: the three coordinates, lowest first
+            let x = a.first()?.xfe()?;
+            let p: Pl<B> = Polynomial::from(x);
+            st.hit(&format!("ctor:from_xfe deg={}", p.degree()));
+            let ok = p.coefficients() == normalized_tail(&x.coefficients) && p == Polynomial::new(x.coefficients.to_vec());
+            Some(Out::ok(okp(&p)).with_oracle(ok, "From<XFieldElement>: not the coordinate polynomial"))
+        }
+        ("mul_scalar" | "scalar_times", "b") => {
+            let p0 = B::plist(a.first()?)?;
+            let s = a.get(1)?.bfe()?;
+            scalar_ops::<B, B>(op, &p0, s, st, &|c, s| c * s, &|p, s| [p.clone() * s, s * p.clone(), p.scalar_mul(s)])
+        }
+        ("mul_scalar" | "scalar_times", "x") => {
+            let p0 = X::plist(a.first()?)?;
+            let s = a.get(1)?.xfe()?;
+            scalar_ops::<X, X>(op, &p0, s, st, &|c, s| c * s, &|p, s| [p.clone() * s, s * p.clone(), p.scalar_mul(s)])
+        }
+        ("mul_scalar" | "scalar_times", "xb") => {
+            // Polynomial<XFieldElement> times a base-field scalar, from either side
+            let p0 = X::plist(a.first()?)?;
+            let s = a.get(1)?.bfe()?;
+            scalar_ops::<X, B>(op, &p0, s, st, &|c, s| c * s, &|p, s| [p.clone() * s, s * p.clone(), p.scalar_mul(s)])
+        }
+        ("mul_scalar" | "scalar_times", "bx") => {
+            // Polynomial<BFieldElement> times an extension-field scalar: the result lives over the extension field
+            let p0 = B::plist(a.first()?)?;
+            let s = a.get(1)?.xfe()?;
+            let times = |p: &Pl<B>, s: X| -> [Pl<X>; 3] { [p.clone() * s, s * p.clone(), p.scalar_mul(s)] };
+            let o = with_variants(&[p0.clone()], st, &|ps| {
+                let [x, y, z] = times(&ps[0], s);
+                if x == y && y == z {
+                    okp(&if op == "mul_scalar" { x } else { y })
+                } else {
+                    "p * s, s * p and scalar_mul(s) differ".into()
+                }
+            });
+            let want: Vec<X> = p0.iter().map(|&c| c * s).collect();
+            let [x, _, _] = times(&build(&p0, 0, false), s);
+            Some(o.with_oracle(x.coefficients() == normalized_tail(&want), "scalar operator is not the coefficient-wise product"))
+        }
+        ("evaluate_mixed", "bx") => {
+            // base-field polynomial at an extension-field point: evaluate::<XFieldElement, XFieldElement>
+            let p0 = B::plist(a.first()?)?;
+            let x = a.get(1)?.xfe()?;
+            let o = with_variants(&[p0.clone()], st, &|ps| {
+                let v: X = ps[0].evaluate(x);
+                format!("ok:{}", v.f1())
+            });
+            let v: X = build(&p0, 0, false).evaluate(x);
+            Some(o.with_oracle(v == horner_mixed(&p0, x), "evaluate::<XFE,XFE> of a base-field polynomial != Horner"))
+        }
+        ("evaluate_mixed", "xb") => {
+            // extension-field polynomial at a base-field point: evaluate::<BFieldElement, XFieldElement>
+            let p0 = X::plist(a.first()?)?;
+            let x = a.get(1)?.bfe()?;
+            let o = with_variants(&[p0.clone()], st, &|ps| {
+                let v: X = ps[0].evaluate::<B, X>(x);
+                format!("ok:{}", v.f1())
+            });
+            let v: X = build(&p0, 0, false).evaluate::<B, X>(x);
+            let mut acc = X::zero();
+            for &c in p0.iter().rev() {
+                acc = acc * x + c;
+            }
+            Some(o.with_oracle(v == acc, "evaluate::<BFE,XFE> of an extension-field polynomial != Horner"))
+        }
+        ("fmci_modulus", "b") => fmci_modulus::<B>(a, st),
+        ("fmci_modulus", "x") => fmci_modulus::<X>(a, st),
+        _ => None,
+    }
+}
+
+/// the polynomial argument (`modulus`) of the two doc-hidden pub functions behind `coset_extrapolate`
+fn fmci_modulus<F: Fld>(a: &[Arg], st: &mut Stats) -> Option<Out>
+where
+    F: std::ops::Mul<F, Output = F> + std::ops::Mul<BFieldElement, Output = F>,
+{
+    let off = a.first()?.bfe()?;
+    let v = F::plist(a.get(1)?)?;
+    let m = F::plist(a.get(2)?)?;
+    st.hit(&format!("fmci_modulus:n={} arm={}", v.len(), if v.len() < 256 { "lagrange" } else { "intt" }));
+    let o = with_variants(&[m.clone()], st, &|ps| {
+        let pre = Polynomial::fast_modular_coset_interpolate_preprocess(v.len(), off, &ps[0]);
+        okp(&Polynomial::fast_modular_coset_interpolate_with_zerofiers_and_ntt_friendly_multiple(&v, off, &ps[0], &pre))
+    });
+    // certificate on the implementation: result = coset interpolant mod modulus  <=>  degree < deg m and
+    // (interpolant - result) is divisible by m; checked through the public `fast_coset_interpolate` + `%`
+    let modulus = build(&m, 0, false);
+    let ok = std::panic::catch_unwind(AssertUnwindSafe(|| {
+        let pre = Polynomial::fast_modular_coset_interpolate_preprocess(v.len(), off, &modulus);
+        let r = Polynomial::fast_modular_coset_interpolate_with_zerofiers_and_ntt_friendly_multiple(&v, off, &modulus, &pre);
+        let full = Polynomial::fast_coset_interpolate(off, &v);
+        r.degree() < modulus.degree() && ((full - r) % modulus.clone()).is_zero()
+    }))
+    .unwrap_or(true);
+    Some(o.with_oracle(ok, "modular coset interpolant is not the interpolant reduced by the modulus"))
+}
+
+fn gen_ext(rng: &mut Rng, thorough: bool, out: &mut Vec<String>) {
+    let reps = if thorough { 60 } else { 6 };
+    for f in ["b", "x"] {
+        let x = f == "x";
+        for n in [0u64, 1, 2, 3, 17, 63, 64, 255, 256, 257] {
+            out.push(format!("polyv x_to_the {f} {n}"));
+        }
+        out.push(format!("polyv zero {f}"));
+        out.push(format!("polyv one {f}"));
+        for c in if x { vec!["(0;0;0)", "(1;0;0)", "(0;1;0)", "(18446744069414584320;0;0)"] } else { vec!["0", "1", "2", "18446744069414584320"] } {
+            out.push(format!("polyv from_constant {f} {c}"));
+        }
+        for _ in 0..reps {
+            let c = estr(rng, x);
+            out.push(format!("polyv from_constant {f} {c}"));
+            for op in ["from_vec", "from_slice", "from_array"] {
+                let d = if op == "from_array" { rng.range(0, 4) as i64 - 1 } else { small_deg(rng) };
+                let k = if op == "from_array" { rng.below(2) as usize } else { zeros_k(rng) };
+                let p = pstr(rng, x, d, k);
+                out.push(format!("polyv {op} {f} {p}"));
+            }
+            for op in ["mul_scalar", "scalar_times"] {
+                let (d, k) = (small_deg(rng), zeros_k(rng));
+                let p = pstr(rng, x, d, k);
+                let s = if rng.coin(1, 6) { if x { "(0;0;0)".to_string() } else { "0".to_string() } } else { estr(rng, x) };
+                out.push(format!("polyv {op} {f} {p} {s}"));
+            }
+        }
+        // the usize::MAX boundary of truncate / mod_x_to_the_n (k + 1 in `truncate` must not wrap)
+        for p in if x { vec!["[(1;0;0),(2;0;0),(3;0;0)]", "[]", "[(0;0;0),(0;1;0),(0;0;0)]"] } else { vec!["[1,2,3]", "[]", "[0,5,0]"] } {
+            for k in [u64::MAX - 1, u64::MAX] {
+                out.push(format!("polyv truncate {f} {p} {k}"));
+                out.push(format!("polyv mod_x_to_the_n {f} {p} {k}"));
+            }
+        }
+        // modulus argument of the modular coset interpolation: stored zeros / borrowed; both reachable arms
+        for &(n, dm) in &[(1usize, 1i64), (2, 1), (8, 3), (64, 5), (256, 4), (256, 40)] {
+            if x && n >= 256 && !thorough {
+                continue;
+            }
+            let vals: Vec<String> = (0..n).map(|_| estr(rng, x)).collect();
+            let k = zeros_k(rng);
+            let m = pstr(rng, x, dm, k);
+            let off = 1 + rng.fval() % (P - 1);
+            out.push(format!("polyv fmci_modulus {f} {off} [{}] {m}", vals.join(",")));
+        }
+    }
+    out.push("polyv from_xfe b (0;0;0)".into());
+    out.push("polyv from_xfe b (5;0;0)".into());
+    out.push("polyv from_xfe b (0;7;0)".into());
+    out.push("polyv from_xfe b (1;2;3)".into());
+    for _ in 0..reps {
+        let s = estr(rng, true);
+        out.push(format!("polyv from_xfe b {s}"));
+        // mixed fields
+        let (d, k) = (small_deg(rng), zeros_k(rng));
+        let pb = pstr(rng, false, d, k);
+        let px = pstr(rng, true, d, k);
+        let sx = estr(rng, true);
+        let sb = estr(rng, false);
+        out.push(format!("polyv evaluate_mixed bx {pb} {sx}"));
+        out.push(format!("polyv evaluate_mixed xb {px} {sb}"));
+        let op = *rng.pick(&["mul_scalar", "scalar_times"]);
+        out.push(format!("polyv {op} bx {pb} {sx}"));
+        out.push(format!("polyv {op} xb {px} {sb}"));
+    }
+}
+
+/// G07 (coordinator request): batch products whose list ELEMENTS carry stored zeros -- padded constants `[1,0]`,
+/// `[0,0]`, `[c,0,0]`, padded linears `[a,1,0]` -- in particular lists in which every factor has exactly two stored
+/// coefficients and leading coefficient 1 although some are the constant 1; and lists of many (>= 128) small
+/// factors whose length is not a multiple of `max(2, len / threads)`.
+fn gen_batch_elements(rng: &mut Rng, thorough: bool, out: &mut Vec<String>) {
+    for f in ["b", "x"] {
+        let x = f == "x";
+        let z = if x { "(0;0;0)" } else { "0" };
+        let e1 = if x { "(1;0;0)" } else { "1" };
+        let lin = |rng: &mut Rng| -> String { if x { format!("({};{};0),{e1}", rng.fval(), rng.below(2)) } else { format!("{},1", rng.fval()) } };
+        let cst = |rng: &mut Rng| -> String { if x { format!("({};0;0)", 2 + rng.below(P - 2)) } else { (2 + rng.below(P - 2)).to_string() } };
+        for &l in &[1usize, 2, 3, 4, 5, 8, 9, 17] {
+            for variant in 0..(if thorough { 10 } else { 5 }) {
+                let mut fs: Vec<String> = (0..l).map(|_| format!("[{}]", lin(rng))).collect();
+                let pos = rng.below(l as u64) as usize;
+                match variant % 5 {
+                    0 => fs[pos] = format!("[{e1},{z}]"),
+                    1 => {
+                        fs[0] = format!("[{e1},{z}]");
+                        fs[l - 1] = format!("[{e1},{z}]");
+                    }
+                    2 => fs[pos] = format!("[{},{z}]", cst(rng)),
+                    3 => fs[pos] = format!("[{z},{z}]"),
+                    _ => {
+                        fs[pos] = format!("[{},{z},{z}]", cst(rng));
+                        fs[(pos + 1) % l] = format!("[{},{z}]", lin(rng));
+                    }
+                }
+                for op in ["batch_multiply", "par_batch_multiply"] {
+                    out.push(format!("polyv {op} {f} [{}]", fs.join(",")));
+                }
+            }
+        }
+        // many small factors
+        for &l in &[127usize, 128, 129, 130, 131, 200, 257, 500] {
+            if x && !thorough && !(l == 129 || l == 257) {
+                continue;
+            }
+            let fs: Vec<String> = (0..l)
+                .map(|i| match (i + l) % 7 {
+                    0 => format!("[{}]", cst(rng)),
+                    1 => format!("[{e1},{z}]"),
+                    2 => format!("[{},{z}]", lin(rng)),
+                    _ => format!("[{}]", lin(rng)),
+                })
+                .collect();
+            for op in ["batch_multiply", "par_batch_multiply"] {
+                out.push(format!("polyv {op} {f} [{}]", fs.join(",")));
+            }
+        }
     }
 }
